@@ -20,6 +20,16 @@ def simp(t):
     return z3.simplify(t)
 
 
+# path-condition oracle used inside sequence closures (set by the engine for the current path):
+#   _ORACLE['decide'](c) -> True/False/None ,  _ORACLE['value'](t) -> python int or None
+_ORACLE = {'decide': None, 'value': None}
+
+
+def set_oracle(decide=None, value=None):
+    _ORACLE['decide'] = decide
+    _ORACLE['value'] = value
+
+
 def is_conc_int(t):
     if isinstance(t, int) and not isinstance(t, bool):
         return True
@@ -166,14 +176,15 @@ FALSE = VBool(False)
 
 class VSeq(V):
     """functional sequence.  kind in {'bytes','str','list'}"""
-    __slots__ = ('kind', 'n', 'at', 'items', 'tag')
+    __slots__ = ('kind', 'n', 'at', 'items', 'tag', 'parts')
 
-    def __init__(self, kind, n, at, items=None, tag=None):
+    def __init__(self, kind, n, at, items=None, tag=None, parts=None):
         self.kind = kind
         self.n = z3.IntVal(n) if isinstance(n, int) else n
         self.at = at
         self.items = items      # python list when fully concrete in *shape* (elements may be terms)
         self.tag = tag          # free-form (spec name) for diagnostics
+        self.parts = parts      # structure of a string built from literals and decimal renderings: [('lit', str) | ('dec', term)]
 
     def clen(self):
         if self.items is not None:
@@ -294,6 +305,8 @@ def seq_items(kind, items):
 
     def at(i, items=items, n=n):
         c = conc_int(i)
+        if c is None and n > 1 and _ORACLE['value'] is not None:
+            c = _ORACLE['value'](I(i))          # index determined by the path condition
         if c is not None:
             if 0 <= c < n:
                 return items[c]
@@ -313,11 +326,33 @@ def seq_items(kind, items):
     return VSeq(kind, n, at, items=items)
 
 
+def seq_parts(v):
+    """[('lit', str) | ('dec', int term)] when v is a string built from literals and str(int) pieces, else None"""
+    if v.kind != 'str':
+        return None
+    if v.parts is not None:
+        return v.parts
+    if v.tag and v.tag[0] == 'dec':
+        return [('dec', v.tag[1])]
+    cs = conc_str(v) if v.items is not None else None
+    if cs is not None:
+        return [('lit', cs)] if cs else []
+    return None
+
+
 def seq_concat(a, b):
     if a.kind != b.kind:
         raise Unsupported('concat %s + %s' % (a.kind, b.kind))
     if a.items is not None and b.items is not None:
         return seq_items(a.kind, a.items + b.items)
+    pa, pb = seq_parts(a), seq_parts(b)
+    r = _seq_concat(a, b)
+    if pa is not None and pb is not None and r.parts is None:
+        r.parts = pa + pb
+    return r
+
+
+def _seq_concat(a, b):
     ca, cb = a.clen(), b.clen()
     if ca == 0:
         return b
@@ -328,6 +363,8 @@ def seq_concat(a, b):
     def at(i, a=a, b=b, an=an, kind=a.kind):
         ii = I(i)
         c = bool_lit(ii < an)
+        if c is None and _ORACLE['decide'] is not None:
+            c = _ORACLE['decide'](ii < an)
         if c is True:
             return a.at(i)
         if c is False:
@@ -417,8 +454,9 @@ def seq_map(s, f, kind=None):
     return VSeq(kind or s.kind, s.n, lambda i, s=s, f=f: f(s.at(i)))
 
 
-def seq_base(kind, name, engine=None, lo=None, hi=None):
-    """uninterpreted input sequence: array `name` + length `name.len`"""
+def seq_base(kind, name, engine=None, lo=None, hi=None, elem_fact=None):
+    """uninterpreted input sequence: array `name` + length `name.len`.
+    elem_fact(e, i) -> Bool: a property of EVERY element (a universally quantified hypothesis, instantiated at each access)"""
     arr = z3.Array(name, z3.IntSort(), z3.IntSort())
     n = z3.Int(name + '.len')
     if lo is None and kind == 'bytes':
@@ -426,10 +464,12 @@ def seq_base(kind, name, engine=None, lo=None, hi=None):
     if lo is None and kind == 'str':
         lo, hi = 0, 0x10FFFF
 
-    def at(i, arr=arr, engine=engine, lo=lo, hi=hi):
+    def at(i, arr=arr, engine=engine, lo=lo, hi=hi, elem_fact=elem_fact):
         e = z3.Select(arr, I(i))
         if engine is not None and lo is not None:
             engine.fact(z3.And(e >= lo, e <= hi))
+        if engine is not None and elem_fact is not None:
+            engine.fact(elem_fact(e, I(i)))
         return e
     s = VSeq(kind, n, at, tag=name)
     if engine is not None:
